@@ -31,8 +31,8 @@ TRUSTED = ['Lean 4.33 kernel', 'axioms: propext, Classical.choice, Quot.sound',
            'pint 0.18 expression parsing and root expansion are modelled (mini-pint: Cellml/Units/Core.lean, '
            'Define.lean), not verified',
            'lxml / RELAX NG validation is not modelled: the model starts from the attribute dictionaries']
-ASSUMPTIONS = ['floating-point rounding is outside the exact model; scales are compared at relative 1e-9 and generated '
-               'scales stay within 1e-200 .. 1e200',
+ASSUMPTIONS = ['floating-point rounding is outside the exact model; scales are compared at relative 1e-9 and the generator '
+               'keeps every partial product pint forms within 1e-250 .. 1e250 (no overflow/underflow of binary64)',
                'a Model always gets a fresh UnitStore, so units_found of _add_units equals UnitStore._known_units']
 FINGERPRINT = {'cellmlmanip/parser.py': ['Parser._add_units', 'Parser._make_pint_unit_definition', 'UNIT_PREFIXES'],
                'cellmlmanip/units.py': ['UnitStore.add_unit', 'UnitStore.add_base_unit', 'UnitStore.is_defined',
@@ -693,8 +693,29 @@ def shrink(v):
 
 
 MANIFEST = {
-    'technique': 'Lean 4 theorems over the work-list model and the mini-pint + generated-table theorems + '
-                 'differential correspondence through cellmlmanip.load_model',
-    'text': 'see notes/reports/C03.md',
-    'note': '',
+    'technique': 'Lean 4 theorems over an executable model of the _add_units work list + mini-pint, generated-table '
+                 'theorems, differential correspondence through cellmlmanip.load_model',
+    'text': ('Proved in Lean (lean/Cellml/Props/C03.lean, standard axioms only), for ALL sets of definitions, any size, '
+             'any chain depth, any order: (1) tables: each of the 20 schema prefix names maps to its SI power of ten, '
+             'the key set of UNIT_PREFIXES is the schema names + deca, each of the 33 built-in names expands to the '
+             'scale and base-unit exponents of CellML 1.1 table 2 written by hand from the specification (one theorem '
+             'per entry); (2) worklist_terminates: the loop is total (well-founded on (|deque|, |deque|+1-iteration)) '
+             'and agrees with a fuel-bounded loop within n(n+1)/2+n+2 passes; (3) worklist_sound_partial: after a '
+             'successful load every unit expands in the registry to its denotation Den (the inductive relation '
+             'prod multiplier*(10^prefix*Den(ref))^exponent), which is unique (den_functional) and independent of the '
+             'order (den_perm); word_subst_correct for identifiers starting with a letter or underscore; (4) success is '
+             'equivalent to order-free conditions (worklist_loadable at full strength, worklist_complete_partial), hence '
+             'worklist_perm_partial: a permutation changes neither whether the document loads nor the meaning of any '
+             'name; (5) rejection at full strength: duplicate names, built-in override, rejected/non-zero offsets, '
+             'dangling references, cycles of any length all give an error. _partial = hypothesis that every REFERENCED '
+             'name starts with a letter or underscore; counterexample digit_leading_reference_rejected is proved. '
+             'The model is tied to parser.py/units.py by seeded correspondence through load_model on generated CellML '
+             'documents (3 orders each, chains to depth 8, all prefixes, 10 exponents in several spellings, faults), '
+             'and an independent mpmath oracle of the specification formula searches for failing inputs. Two defects '
+             'found and fixed in /repo (base_units="no" treated as base unit; names ending in "__"), three known '
+             'findings (digit-leading names, offset="0.0", dimensionless x dimensional).'),
+    'note': ('Trusted: Lean kernel; propext, Classical.choice, Quot.sound; the translator for UNIT_PREFIXES, '
+             'cellml_units.txt, the schema prefix list, _CELLML_UNITS; the correspondence harness. pint 0.18 (expression '
+             'parsing, root expansion) and lxml/RELAX NG validation are modelled or outside the model, not verified. '
+             'Scale equality is equality of prime-exponent vectors. Floating-point rounding is outside the exact model.'),
 }
